@@ -482,7 +482,10 @@ Section Total.
 Variable A : Type.
 Variable leA : A -> A -> bool.
 Lemma lookahead_part_total z f : lookahead_part_gen z f <> None.
-Proof. unfold lookahead_part_gen, pand, pnot, olift2. destruct (Z.gtb z 0), f; discriminate. Qed.
+Proof.
+  cbv beta iota delta [lookahead_part_gen pand por pnot olift2 option_map]. destruct f;
+  repeat match goal with |- context [match ?x with _ => _ end] => destruct x end; discriminate.
+Qed.
 Lemma step_none_iff o r : step A leA (Some o) r = None <-> transform_rule A r = None.
 Proof.
   unfold step. destruct (transform_rule A r) as [t|]; [|split; reflexivity].
